@@ -516,3 +516,100 @@ Proof.
   apply ha_sort_desc_in, filter_In in Hin. destruct Hin as [Hin Hf].
   apply andb_true_iff in Hf. destruct Hf as [Hd Hu]. apply ha_bytes_eqb_eq in Hd, Hu. auto.
 Qed.
+
+(* ================================================================================================ *)
+(* tcpmux load-balancing groups *)
+From FRP Require Import Model.HttpAuthGroup.
+
+(* every member of a group was configured with exactly the credentials of the group's muxer listener *)
+Definition ha_grp_inv (st : ha_gstate) : Prop :=
+  forall g m, In g st -> In m (g_members g) ->
+              gm_user m = rt_user (g_route g) /\ gm_pass m = rt_pass (g_route g).
+
+Lemma ha_grp_inv_nil : ha_grp_inv [].
+Proof. intros g m []. Qed.
+
+Lemma ha_grp_join_existing_inv g m g' r :
+  (forall x, In x (g_members g) -> gm_user x = rt_user (g_route g) /\ gm_pass x = rt_pass (g_route g)) ->
+  ha_grp_join_existing g m = (g', r) ->
+  g_route g' = g_route g /\
+  (forall x, In x (g_members g') -> gm_user x = rt_user (g_route g) /\ gm_pass x = rt_pass (g_route g)).
+Proof.
+  intros H. unfold ha_grp_join_existing.
+  destruct (bytes_eqb (rt_domain (g_route g)) (gm_domain m)); cbn; [|intros [= <- _]; auto].
+  destruct (bytes_eqb (rt_by_user (g_route g)) (gm_by_user m)); cbn; [|intros [= <- _]; auto].
+  destruct (bytes_eqb (rt_user (g_route g)) (gm_user m)) eqn:Eu; cbn; [|intros [= <- _]; auto].
+  destruct (bytes_eqb (rt_pass (g_route g)) (gm_pass m)) eqn:Ep; cbn; [|intros [= <- _]; auto].
+  destruct (bytes_eqb (g_key g) (gm_key m)); cbn; intros [= <- _]; auto.
+  cbn. split; [reflexivity|]. intros x Hx. apply in_app_or in Hx. destruct Hx as [Hx|[<-|[]]]; [auto|].
+  apply ha_bytes_eqb_eq in Eu, Ep. auto.
+Qed.
+
+Lemma ha_grp_join_in_inv st : forall m st' r,
+  ha_grp_inv st -> ha_grp_join_in st m = Some (st', r) -> ha_grp_inv st'.
+Proof.
+  induction st as [|g t IH]; cbn; intros m st' r Hinv; [discriminate|].
+  destruct (bytes_eqb (g_name g) (gm_group m)).
+  - destruct (ha_grp_join_existing g m) as [g' r'] eqn:E. intros [= <- _].
+    apply ha_grp_join_existing_inv in E; [|intros x Hx; apply (Hinv g x); cbn; auto].
+    destruct E as [Er Em]. intros g0 m0 [<-|Hg] Hm; [rewrite Er; auto|]. apply (Hinv g0 m0); cbn; auto.
+  - destruct (ha_grp_join_in t m) as [[t' r']|] eqn:E; [|discriminate]. intros [= <- _].
+    assert (ha_grp_inv t') as Ht.
+    { eapply IH; [|exact E]. intros g0 m0 Hg Hm. apply (Hinv g0 m0); cbn; auto. }
+    intros g0 m0 [<-|Hg] Hm; [apply (Hinv g m0); cbn; auto|apply (Ht g0 m0); auto].
+Qed.
+
+Lemma ha_grp_step_inv st op : ha_grp_inv st -> ha_grp_inv (fst (ha_grp_step st op)).
+Proof.
+  intros Hinv. destruct op as [m|id]; cbn.
+  - unfold ha_grp_join. destruct (ha_grp_join_in st m) as [[st' r]|] eqn:E.
+    + cbn. eapply ha_grp_join_in_inv; eauto.
+    + destruct (ha_grp_conflict st m); cbn; [assumption|].
+      intros g0 m0 Hg Hm. apply in_app_or in Hg. destruct Hg as [Hg|[<-|[]]]; [apply (Hinv g0 m0); auto|].
+      cbn in Hm. destruct Hm as [<-|[]]. cbn. auto.
+  - unfold ha_grp_leave. intros g0 m0 Hg Hm. apply filter_In in Hg. destruct Hg as [Hg _].
+    apply in_map_iff in Hg. destruct Hg as [g [<- Hg]]. cbn in *. apply filter_In in Hm. destruct Hm as [Hm _].
+    apply (Hinv g m0); auto.
+Qed.
+
+Lemma ha_grp_run_inv ops : forall st, ha_grp_inv st -> ha_grp_inv (fst (ha_grp_run st ops)).
+Proof.
+  induction ops as [|op t IH]; intros st Hinv; cbn; [assumption|].
+  pose proof (ha_grp_step_inv st op Hinv) as H1. destruct (ha_grp_step st op) as [st1 r]. cbn in H1.
+  specialize (IH st1 H1). destruct (ha_grp_run st1 t) as [st2 rs]. exact IH.
+Qed.
+
+Lemma ha_route_eqb_eq a b : ha_route_eqb a b = true -> a = b.
+Proof.
+  unfold ha_route_eqb. rewrite !andb_true_iff. intros [[[[[[H1 H2] H3] H4] H5] H6] H7].
+  apply Z.eqb_eq in H1. apply ha_bytes_eqb_eq in H2, H3, H4, H5, H6. apply Bool.eqb_prop in H7.
+  destruct a, b; cbn in *; subst; reflexivity.
+Qed.
+
+(* for every history of joins and leaves, in every order: a member that receives a connection was configured with no
+   user name, or the CONNECT presented exactly the member's user name and password *)
+Theorem ha_grp_member_receives_only_with_credentials canon ops pt rq chosen m :
+  ha_grp_deliver canon (fst (ha_grp_run [] ops)) pt rq chosen = Some m ->
+  ha_member_creds m = None \/ ha_member_creds m = Some (ha_mux_presented rq).
+Proof.
+  pose proof (ha_grp_run_inv ops [] ha_grp_inv_nil) as Hinv. set (st := fst (ha_grp_run [] ops)) in *.
+  unfold ha_grp_deliver. destruct (ha_mux_handle _ _ _ _) as [| |s|l s] eqn:E; try discriminate.
+  destruct (find _ st) as [g|] eqn:Eg; [|discriminate]. intros Hm.
+  apply find_some in Eg. destruct Eg as [Hg Heq]. apply ha_route_eqb_eq in Heq.
+  apply find_some in Hm. destruct Hm as [Hm _].
+  destruct (Hinv g m Hg Hm) as [Hu Hp].
+  apply ha_mux_forward_implies_credentials in E. unfold ha_mux_creds in E. unfold ha_member_creds.
+  rewrite Hu, Hp, Heq. exact E.
+Qed.
+
+(* a member configured differently from the group it asks to join is refused *)
+Theorem ha_grp_join_other_credentials_refused g m :
+  (gm_user m, gm_pass m) <> (rt_user (g_route g), rt_pass (g_route g)) ->
+  ha_grp_join_existing g m = (g, 1).
+Proof.
+  intros Hne. unfold ha_grp_join_existing.
+  destruct (bytes_eqb (rt_user (g_route g)) (gm_user m)) eqn:Eu;
+    destruct (bytes_eqb (rt_pass (g_route g)) (gm_pass m)) eqn:Ep;
+    try (now rewrite ?orb_true_r; cbn; rewrite ?orb_true_r).
+  apply ha_bytes_eqb_eq in Eu, Ep. exfalso. apply Hne. now rewrite Eu, Ep.
+Qed.
